@@ -60,11 +60,73 @@ var (
 
 type c10proto struct {
 	*onet.TreeNodeInstance
-	stop chan struct{}
-	once sync.Once
+	stop     chan struct{}
+	once     sync.Once
+	accepted int32 // messages the overlay has handed to this instance
 }
 
-func (p *c10proto) Start() error { return nil }
+// C10Go asks the child for N replies; C10Reply is one of them.
+type C10Go struct{ N int }
+type C10Reply struct{ I int }
+
+// C10Slow is handled by a processor that blocks until released.
+type C10Slow struct{ I int }
+
+var (
+	_           = network.RegisterMessage(&C10Go{})
+	_           = network.RegisterMessage(&C10Reply{})
+	c10slowType = network.RegisterMessage(&C10Slow{})
+	c10busyN    int32         // > 0: the next protocol start is a "busy" one with that many replies
+	c10gate     chan struct{} // closed to let the busy handler return
+	c10entered  = make(chan bool, 4)
+	c10handled  int32 // handler invocations for C10Reply
+	c10late     int32 // ... of which after Server.Close had returned
+	c10closedAt int32 // set once Server.Close has returned
+)
+
+func (p *c10proto) Start() error {
+	if n := atomic.LoadInt32(&c10busyN); n > 0 && p.IsRoot() {
+		return p.SendToChildren(&C10Go{N: int(n)})
+	}
+	return nil
+}
+
+// ProcessProtocolMsg is what the overlay calls to hand a message over.
+func (p *c10proto) ProcessProtocolMsg(msg *onet.ProtocolMsg) {
+	atomic.AddInt32(&p.accepted, 1)
+	p.TreeNodeInstance.ProcessProtocolMsg(msg)
+}
+
+func (p *c10proto) handleGo(m struct {
+	*onet.TreeNode
+	C10Go
+}) error {
+	for i := 1; i <= m.N; i++ {
+		if err := p.SendToParent(&C10Reply{I: i}); err != nil {
+			break
+		}
+	}
+	p.Done()
+	return nil
+}
+
+func (p *c10proto) handleReply(m struct {
+	*onet.TreeNode
+	C10Reply
+}) error {
+	n := atomic.AddInt32(&c10handled, 1)
+	if atomic.LoadInt32(&c10closedAt) != 0 {
+		atomic.AddInt32(&c10late, 1)
+	}
+	if n == 1 {
+		gate := c10gate
+		c10entered <- true
+		if gate != nil {
+			<-gate
+		}
+	}
+	return nil
+}
 func (p *c10proto) Dispatch() error {
 	atomic.AddInt32(&c10dispatching, 1)
 	defer atomic.AddInt32(&c10dispatching, -1)
@@ -79,6 +141,9 @@ func (p *c10proto) Shutdown() error {
 func init() {
 	onet.GlobalProtocolRegister(c10protoName, func(n *onet.TreeNodeInstance) (onet.ProtocolInstance, error) {
 		p := &c10proto{TreeNodeInstance: n, stop: make(chan struct{})}
+		if err := n.RegisterHandlers(p.handleGo, p.handleReply); err != nil {
+			return nil, err
+		}
 		c10protoMu.Lock()
 		c10protos[n.Token().ID().String()] = p
 		c10protoMu.Unlock()
@@ -560,13 +625,60 @@ func c10exec(c *h.Ctx, cs *h.Case) {
 			tree = cl.Roster.GenerateBinaryTree()
 			cs.Impl = append(cs.Impl, "ok")
 			continue
-		case "srvstart", "srvclose", "srvdone", "srvgrace", "srvchurn", "srvwait":
+		case "srvstart", "srvclose", "srvdone", "srvgrace", "srvchurn", "srvwait", "srvbusy", "srvrelease":
 			if cl == nil {
 				bad()
 				continue
 			}
 			ov := cl.Overlay(0)
 			switch tk[0] {
+			case "srvbusy":
+				n, ok := num()
+				if !ok || n == 0 || n > 50 {
+					bad()
+					continue
+				}
+				c10gate = make(chan struct{})
+				atomic.StoreInt32(&c10busyN, int32(n))
+				pi, err := ov.StartProtocol(c10protoName, tree, onet.NilServiceID)
+				started = append(started, nil)
+				if err != nil || pi == nil {
+					atomic.StoreInt32(&c10busyN, 0)
+					cs.Impl = append(cs.Impl, "busy=err")
+					break
+				}
+				bound++
+				c10protoMu.Lock()
+				root := c10protos[pi.Token().ID().String()]
+				c10protoMu.Unlock()
+				handling := 0
+				select {
+				case <-c10entered:
+					handling = 1
+				case <-time.After(5 * time.Second):
+				}
+				for i := 0; i < 2500 && int(atomic.LoadInt32(&root.accepted)) < n; i++ {
+					time.Sleep(2 * time.Millisecond)
+				}
+				atomic.StoreInt32(&c10busyN, 0)
+				// the child's instance ends by itself (its Dispatch routine with it)
+				c10dispatchers(bound)
+				cs.Impl = append(cs.Impl, fmt.Sprintf("busy=ok handling=%d queued=%d", handling, int(atomic.LoadInt32(&root.accepted))-handling))
+			case "srvrelease":
+				if len(tk) != 1 {
+					bad()
+					continue
+				}
+				if c10gate != nil {
+					close(c10gate)
+					c10gate = nil
+				}
+				time.Sleep(200 * time.Millisecond)
+				late := int(atomic.LoadInt32(&c10late))
+				cs.Impl = append(cs.Impl, fmt.Sprintf("late=%d", late))
+				if late > 0 {
+					cs.Fail("handler-after-close", fmt.Sprintf("%d peer message(s) that were queued at a protocol instance were handed to its handler after Server.Close had returned", late))
+				}
 			case "srvgrace":
 				ms, ok := num()
 				if !ok {
@@ -686,6 +798,7 @@ func c10exec(c *h.Ctx, cs *h.Case) {
 					return
 				}
 				closedOnce = true
+				atomic.StoreInt32(&c10closedAt, 1)
 				bound = 0
 				n := ov.VerifInstanceCount()
 				nd := c10dispatchers(0)
@@ -708,6 +821,25 @@ func c10exec(c *h.Ctx, cs *h.Case) {
 		}
 		if ctl == nil {
 			bad()
+			continue
+		}
+		if tk[0] == "backlog" {
+			ctl.mu.Lock()
+			fresh := len(ctl.threads) == 0 && len(ctl.peers) == 0
+			ctl.mu.Unlock()
+			f, e1 := 0, error(nil)
+			n, e2 := 0, error(nil)
+			if len(tk) == 3 {
+				f, e1 = strconv.Atoi(tk[1])
+				n, e2 = strconv.Atoi(tk[2])
+			}
+			if len(tk) != 3 || e1 != nil || e2 != nil || f < 0 || n < 0 || f > 350 || n > 300 || ctl.tcp || !fresh ||
+				strings.HasPrefix(tk[1], "+") || strings.HasPrefix(tk[2], "+") {
+				bad()
+				continue
+			}
+			cs.Impl = append(cs.Impl, c10backlog(ctl, cs, id, f, n))
+			outcome = append(outcome, cs.Impl[len(cs.Impl)-1])
 			continue
 		}
 		if tk[0] == "stress" || tk[0] == "stall" {
@@ -943,6 +1075,10 @@ func c10exec(c *h.Ctx, cs *h.Case) {
 		cs.Impl = append(cs.Impl, ctl.view())
 	}
 	if cl != nil {
+		if c10gate != nil {
+			close(c10gate)
+			c10gate = nil
+		}
 		for _, s := range cl.Servers {
 			s.Close()
 		}
@@ -1134,6 +1270,97 @@ func c10stress(ctl *c10ctl, cs *h.Case, id string, n, m int, c *h.Ctx) string {
 }
 
 var c10stressSpin = 3
+
+// c10backlog (in-memory transport): the receiver's processor is blocked, fill messages are
+// queued on the connection, senders further Sends run concurrently; the sending router is
+// stopped while they wait, then the receiver goes on.
+func c10backlog(ctl *c10ctl, cs *h.Case, id string, fill, senders int) string {
+	ctl.freeAll()
+	p, err := ctl.peer(1, id)
+	if err != nil {
+		cs.Fail("harness", err.Error())
+		return "harness-error"
+	}
+	entered := make(chan bool, 1)
+	release := make(chan bool)
+	var first sync.Once
+	p.r.RegisterProcessorFunc(c10slowType, func(*network.Envelope) error {
+		first.Do(func() { entered <- true })
+		<-release
+		return nil
+	})
+	if _, err := ctl.r.Send(p.r.ServerIdentity, &C10Slow{I: 0}); err != nil {
+		cs.Fail("harness", "first contact: "+err.Error())
+		return "harness-error"
+	}
+	select {
+	case <-entered:
+	case <-time.After(5 * time.Second):
+		cs.Fail("harness", "the first message never reached the processor")
+		close(release)
+		return "harness-error"
+	}
+	for i := 1; i <= fill; i++ {
+		if _, err := ctl.r.Send(p.r.ServerIdentity, &C10Slow{I: i}); err != nil {
+			cs.Fail("harness", "filling the queues: "+err.Error())
+			close(release)
+			return "harness-error"
+		}
+	}
+	type outcome struct {
+		err      error
+		panicked interface{}
+	}
+	results := make(chan outcome, senders)
+	for i := 0; i < senders; i++ {
+		go func(i int) {
+			var o outcome
+			defer func() {
+				if r := recover(); r != nil {
+					o.panicked = r
+				}
+				results <- o
+			}()
+			_, o.err = ctl.r.Send(p.r.ServerIdentity, &C10Slow{I: 1000 + i})
+		}(i)
+	}
+	time.Sleep(150 * time.Millisecond)
+	stopped := make(chan bool, 1)
+	go func() { ctl.r.Stop(); stopped <- true }()
+	time.Sleep(100 * time.Millisecond)
+	close(release)
+	hung, panics := 0, 0
+	example := ""
+	deadline := time.After(10 * time.Second)
+	for i := 0; i < senders; i++ {
+		select {
+		case o := <-results:
+			if o.panicked != nil {
+				panics++
+				example = fmt.Sprint(o.panicked)
+			}
+		case <-deadline:
+			hung = senders - i
+			i = senders
+		}
+	}
+	isStopped := false
+	select {
+	case <-stopped:
+		isStopped = true
+	case <-time.After(10 * time.Second):
+	}
+	if panics > 0 {
+		cs.Fail("send-panics-racing-with-stop", fmt.Sprintf("%d of %d Router.Send calls on the in-memory transport racing with Router.Stop panicked: %s", panics, senders, example))
+	}
+	if hung > 0 {
+		cs.Fail("hang:thread", fmt.Sprintf("%d Send(s) racing with Stop never returned", hung))
+	}
+	if !isStopped {
+		cs.Fail("hang:stop", "Router.Stop racing with Sends that wait for a slot in the peer's queue did not return within 10 s after the peer went on")
+	}
+	return fmt.Sprintf("stopped=%v hung=%d panics=%d", isStopped, hung, panics)
+}
 
 // c10stall: a Send blocked on a peer that does not read, then Stop.
 func c10stall(ctl *c10ctl, cs *h.Case) string {
@@ -1362,6 +1589,10 @@ func c10gen(c *h.Ctx, yield func(*h.Case)) {
 			emit("stress", []string{"init " + tr, fmt.Sprintf("stress %d %d", 8+r.Intn(24), 8+r.Intn(24))})
 		}
 	}
+	// in memory: Sends waiting for a slot in a busy peer's queue while the sender stops
+	for i := 0; i < c.Pick(2, 8); i++ {
+		emit("backlog", []string{"init local", fmt.Sprintf("backlog %d %d", 280+r.Intn(40), 120+r.Intn(60))})
+	}
 	// Stop while a Send is blocked on a peer that does not read (TCP)
 	for i := 0; i < c.Pick(1, 3); i++ {
 		emit("stalled-peer", []string{"init tcp", "stall tcp"})
@@ -1370,6 +1601,11 @@ func c10gen(c *h.Ctx, yield func(*h.Case)) {
 	for _, tr := range transports {
 		emit("server:start-after-close", []string{"srv " + tr, "srvstart", "srvstart", "srvdone 0", "srvclose", "srvstart", "srvstart", "srvclose"})
 		emit("server:close-idle", []string{"srv " + tr, "srvclose", "srvclose", "srvstart"})
+		// an instance busy in a handler with further peer messages queued, then Close
+		for _, n := range []int{2, 5, 20} {
+			emit("server:close-with-queued-messages", []string{"srv " + tr, fmt.Sprintf("srvbusy %d", n), "srvclose", "srvrelease", "srvstart"})
+		}
+		emit("server:queued-messages-no-close", []string{"srv " + tr, "srvbusy 4", "srvrelease", "srvstart", "srvclose"})
 		// cleaners of the tree store whose timers fire while Close runs
 		for _, ms := range []int{1, 2, 3} {
 			emit("server:close-while-trees-expire", []string{"srv " + tr, fmt.Sprintf("srvgrace %d", ms), "srvstart", "srvchurn 20", "srvclose", "srvstart"})
